@@ -1573,7 +1573,11 @@ func rsRunRandom(t *testing.T, prefix, def string, mode string) {
 	n := int(verifEnvInt("VERIF_N", 60))
 	st := newRsStats()
 	rsWithRecorder(t, def, func() {
+		only := verifEnvInt("VERIF_ONLY", -1) // replay of a single scenario of the series
 		for i := 0; i < n; i++ {
+			if only >= 0 && int64(i) != only {
+				continue
+			}
 			sd := seed*1000003 + int64(i)
 			c := rsRandomCfg(rand.New(rand.NewSource(sd)), sd)
 			c.label = mode
